@@ -2,7 +2,7 @@ SPECIFICATION Spec
 CONSTANTS
   MaxLen = 4
   MaxIter = 2
-  MaxOps = 3
+  MaxOps = 2
 INVARIANT FirstFound
 INVARIANT UnsupportedIgnored
 INVARIANT Raises
